@@ -179,7 +179,7 @@ class UnitStore(object):
         self._known_units.add(name)
 
         # Return new unit
-        return getattr(self._registry, qname)
+        return self._registry.Unit(qname)
 
     def add_base_unit(self, name):
         """Add a new base unit.
@@ -201,7 +201,7 @@ class UnitStore(object):
         self._known_units.add(name)
 
         # Return new unit
-        return getattr(self._registry, qname)
+        return self._registry.Unit(qname)
 
     def is_defined(self, name):
         """Check if a unit with the given ``name`` exists."""
@@ -219,7 +219,7 @@ class UnitStore(object):
         elif name not in self._known_units:
             raise KeyError('Unknown unit <' + str(name) + '>.')
 
-        return getattr(self._registry, self._prefix_name(name))
+        return self._registry.Unit(self._prefix_name(name))
 
     def format(self, unit, base_units=False):
         """
